@@ -231,6 +231,8 @@ def _shape(t, ir):
     k = t[0]
     if k == 'b':
         return ('primitive-' if getattr(ir, 'primitive', False) else 'builtin-') + t[1].replace('Type', '')
+    if k == 'i' and t[1].startswith('Function') and t[1][8:].isdigit():
+        return 'function-type'
     if k == 'v':
         return 'typevar' if t[2] is None else ('typevar-chain' if t[2][0] == 'v' else 'typevar-bounded')
     return {'c': 'class', 'i': 'generic', 'top': 'top', 'bot': 'bottom'}.get(k, k)
